@@ -92,12 +92,19 @@ pub fn scenario(seed: u64, rep: &mut Report) {
             cands.push(v6(0x78, 30303));
         }
         let honest = *rng.pick(&cands);
-        let liars = rng.usize(min + 2);
+        // a coordinated group: enough liars to reach the minimum on their own, one rival address,
+        // answering before everyone else
+        let coordinated = rng.chance(1, 3);
+        let liars = if coordinated { (min + rng.usize(2)).min(nvoters) } else { rng.usize(min + 2) };
         let mut votes: Vec<Vote> = Vec::new();
         let mut log: Vec<Value> = Vec::new();
         let mut open: Vec<(RequestId, NodeAddress)> = Vec::new();
         let mut updates = 0u64;
-        let rounds = 2 + rng.usize(4);
+        let steady_refresh = short_votes && rng.bool();
+        let liars_first = coordinated || rng.chance(1, 3);
+        // the liars follow one plan for the whole run, or each decides anew for every vote
+        let liar_mode: Option<u64> = if coordinated { Some(1) } else if rng.bool() { Some(rng.below(3)) } else { None };
+        let rounds = if steady_refresh { 3 + rng.usize(3) } else { 2 + rng.usize(4) };
         let mut prev_enr = rig.local_enr();
         for round in 0..rounds {
             if round == 0 {
@@ -107,7 +114,11 @@ pub fn scenario(seed: u64, rep: &mut Report) {
                 }
                 rig.settle().await;
             } else {
-                if short_votes && rng.bool() {
+                if short_votes && steady_refresh {
+                    // every voter votes again well within the life of its previous vote, while
+                    // the time since its first vote grows beyond that life
+                    std::thread::sleep(Duration::from_millis(80 + rng.below(25)));
+                } else if short_votes && rng.bool() {
                     std::thread::sleep(Duration::from_millis(*rng.pick(&[40u64, 90, 170])));
                 }
                 // past the ping interval: every table entry is pinged again
@@ -126,7 +137,11 @@ pub fn scenario(seed: u64, rep: &mut Report) {
             rig.take_events();
             // answer the pings in random order
             rng.shuffle(&mut open);
-            let pending: Vec<(RequestId, NodeAddress)> = open.drain(..).collect();
+            let mut pending: Vec<(RequestId, NodeAddress)> = open.drain(..).collect();
+            if liars_first {
+                // the liars are the quickest to answer
+                pending.sort_by_key(|(_, na)| voters.iter().position(|v| v.id == na.node_id.raw()).unwrap_or(usize::MAX));
+            }
             for (rid, na) in pending {
                 let Some(vi) = voters.iter().position(|v| v.id == na.node_id.raw()) else { continue };
                 if rng.chance(1, 12) {
@@ -139,7 +154,7 @@ pub fn scenario(seed: u64, rep: &mut Report) {
                 let is_liar = vi < liars;
                 let addr = if is_liar {
                     // liars agree on one rival, or spread, or change their mind between rounds
-                    match rng.below(3) {
+                    match liar_mode.unwrap_or_else(|| rng.below(3)) {
                         0 => cands[(vi + round) % cands.len()],
                         1 => cands[0],
                         _ => *rng.pick(&cands),
